@@ -483,13 +483,18 @@ func (l *leader) setCommitIndex(index uint64) {
 		println(l, "log.Commit", index)
 	}
 	l.storage.commitLog(index)
-	if l.commitIndex < l.startIndex && index >= l.startIndex {
+	ready := l.commitIndex < l.startIndex && index >= l.startIndex
+	if ready {
 		l.logger.Info("ready for commit")
 		if tracer.commitReady != nil {
 			tracer.commitReady(l.Raft)
 		}
 	}
 	configCommitted := l.Raft.setCommitIndex(index)
+	if !configCommitted && ready {
+		// config actions pending since before this term were held back until now
+		l.checkConfigActions(nil, l.configs.Latest)
+	}
 	if configCommitted {
 		if l.configs.IsStable() {
 			if trace {
